@@ -22,6 +22,14 @@ def corpus(tier, seed):
         if not q:
             inputs += EL.family_inputs(rng, fam, cands, 3, D.INT_W(1), per_bag=4)
         inputs += EL.family_sampled(rng, fam, 150 if q else 3000, (4, 5), 6, wmax=2, rational=0.1)
+    # ties that a deterministic tiebreak resolves only partially (two or more groups that are each still tied)
+    for fam in ("oneshot", "stv", "composite"):
+        for _ in range(80 if q else 1500):
+            nc = rng.randint(4, 5)
+            cs = D.ABC[:nc]
+            cfgs = [c for c in EL.family_configs(fam, nc) if c["tb"] in ("borda", "first_place", "random")]
+            inputs.append({"cfg": rng.choice(cfgs), "cands": cs, "ballots": D.partial_tie_bag(rng, cs, 2), "mode": "explore", "max_paths": 200,
+                           "seed": rng.randrange(10**6)})
     return EL.add_slow_slice(rng, inputs, 100 if q else 1000)
 
 
